@@ -13,6 +13,8 @@ Sibling agreement by evaluation of the function bodies with the checker's interp
              1..4 fragments of which 1..k are sent, following message), every trigger fragment and ordered/unordered: exactly
              the fragments of that message — sent or still queued — are abandoned, nothing else is touched, the FORWARD-TSN
              covers exactly them and names (stream, seq) iff ordered; a reliable chunk is never abandoned
+  C06-REPEAT _update_advanced_peer_ack_point rebuilds the FORWARD-TSN on every call while the peer's cumulative ack is behind the
+             abandoned TSNs (the datagram carrying it can be lost) and stops once the peer has caught up
   C06-RECV   _receive_forward_tsn_chunk followed by the late arrival of the remaining chunks, for every subset of already
              received chunks of two messages on a reliable stream next to the abandoned message (same or other stream,
              ordered or unordered): the reliable messages are delivered exactly once, intact, in order
@@ -199,7 +201,7 @@ def run(rep: Report, prog: Program, tier: str) -> None:
                     c._acked = True
                 sacked = (base_tsn - 1 + nacked) % (1 << 32)
                 me = SimpleNamespace(__cls__=ci, _sent_queue=sentq, _outbound_queue=outq, _last_sacked_tsn=sacked, _advanced_peer_ack_tsn=sacked,
-                                     _forward_tsn_chunk=None, delivered=[])
+                                     _forward_tsn_chunk=None, _forward_tsn_pending=None, _forward_tsn_streams={}, delivered=[])
                 label = (f"{nfrag} fragment(s), {nsent} sent, trigger #{trig}, {'unordered' if unordered else 'ordered'}, {'reliable prefix outstanding' if prefix else 'at the head'}"
                          + (f", first {nacked} fragment(s) already acknowledged" if nacked else "") + (", next reliable chunk gap-acked" if follow_acked else ""))
                 try:
@@ -251,6 +253,47 @@ def run(rep: Report, prog: Program, tier: str) -> None:
             rep.ok("C06-WHOLE", f"maxRetransmits={pol}, sent {cnt} time(s)", sample=f"abandoned={want}")
         else:
             rep.fail(mk_finding(prog, PROP, "C06-WHOLE", ma, ma.node, f"maxRetransmits={pol}, sent {cnt} time(s): abandoned={c._abandoned}, expected {want}", construct=f"policy {pol}/{cnt}"))
+
+    # ================================================================ C06-REPEAT
+    # "once the network recovers, messages sent afterwards on the same channel are delivered again": the datagram carrying the FORWARD-TSN
+    # can be lost like any other, so the sender has to repeat it (on every SACK / T3 expiry, RFC 3758 3.5 A5/C3) until the peer's cumulative
+    # ack has caught up with the advanced ack point - and stop then.
+    rep.rule("C06-REPEAT", "a FORWARD-TSN is rebuilt until the peer's cumulative ack covers the abandoned TSNs, and not afterwards", min_instances=6)
+    for unordered, nfrag in itertools.product((False, True), (1, 2)):
+        label = f"{'unordered' if unordered else 'ordered'} abandoned message of {nfrag} fragment(s), FORWARD-TSN lost"
+        target = message(100, 5, 9, nfrag, unordered, 0, "m", nfrag)
+        follow = message(100 + nfrag, 5, 10, 1, unordered, 0, "f", 1)
+        me = SimpleNamespace(__cls__=ci, _sent_queue=deque(target + follow), _outbound_queue=deque(), _last_sacked_tsn=99, _advanced_peer_ack_tsn=99,
+                             _forward_tsn_chunk=None, _forward_tsn_pending=None, _forward_tsn_streams={}, delivered=[])
+        try:
+            hook.run_method(ma, me, [target[0]], {})
+            hook.run_method(up, me, [], {})
+            first = me._forward_tsn_chunk
+            me._forward_tsn_chunk = None          # _transmit() sent it; the datagram is lost
+            hook.run_method(up, me, [], {})       # the next SACK still reports cumulative TSN 99 (or T3 expires)
+            again = me._forward_tsn_chunk
+            me._forward_tsn_chunk = None
+            me._last_sacked_tsn = 100 + nfrag - 1  # this time it arrived: the peer's cumulative ack covers the abandoned TSNs
+            hook.run_method(up, me, [], {})
+            after = me._forward_tsn_chunk
+        except Raised as ex:
+            rep.fail(mk_finding(prog, PROP, "C06-REPEAT", up, getattr(ex, "node", None), f"[{label}] raises {ex.name}", construct=f"repeat raises {ex.name}"))
+            continue
+        except Unknown as ex:
+            raise AnalysisError(f"C06-REPEAT cannot evaluate [{label}]: {ex}")
+        want_streams = [] if unordered else [(5, 9)]
+        desc = lambda f: None if f is None else (f.cumulative_tsn, [tuple(x) for x in f.streams])  # noqa: E731
+        if desc(again) != (100 + nfrag - 1, want_streams):
+            rep.fail(mk_finding(prog, PROP, "C06-REPEAT", up, up.node,
+                                f"[{label}] the peer still acknowledges TSN 99 but the FORWARD-TSN is not built again (got {desc(again)}, first one was {desc(first)}): if that one datagram is "
+                                "lost the receiver never skips the abandoned message; everything sent later on the channel stays blocked / outstanding", construct="FORWARD-TSN not repeated"))
+        else:
+            rep.ok("C06-REPEAT", label + ": repeated while the peer is behind", sample=str(desc(again)))
+        if after is not None:
+            rep.fail(mk_finding(prog, PROP, "C06-REPEAT", up, up.node, f"[{label}] a FORWARD-TSN {desc(after)} is still built after the peer acknowledged the abandoned TSNs",
+                                construct="FORWARD-TSN repeated after the ack"))
+        else:
+            rep.ok("C06-REPEAT", label + ": no FORWARD-TSN once the peer has caught up")
 
     # ================================================================ C06-RECV
     rep.rule("C06-RECV", "FORWARD-TSN at the receiver leaves other messages intact", min_instances=60)
@@ -326,6 +369,27 @@ def run(rep: Report, prog: Program, tier: str) -> None:
         else:
             rep.fail(mk_finding(prog, PROP, "C06-RECV", rf, rf.node, f"[{label}] delivered {got}; expected R1 and R2 on stream 1 and X on stream 2, each once: a duplicated FORWARD-TSN "
                                 f"rewound the stream's expected sequence number", construct="receiver: duplicate FORWARD-TSN"))
+    # a repeated / later FORWARD-TSN still lists a stream whose abandoned message the receiver has long skipped: no rewind
+    label = "later FORWARD-TSN repeats an old (stream, sequence) entry"
+    me = SimpleNamespace(__cls__=ci, _last_received_tsn=8, _sack_needed=False, _sack_duplicates=[], _sack_misordered=set(), _inbound_streams={}, _inbound_streams_max=65535,
+                         _advertised_rwnd=100000, delivered=[])
+    try:
+        hook.run_method(rf, me, [SimpleNamespace(cumulative_tsn=9, streams=[(1, 0)], flags=0)], {})
+        hook.run_method(rd, me, [chunk(10, 1, 1, FIRST | LAST, b"R1")], {})
+        hook.run_method(rd, me, [chunk(11, 1, 2, FIRST | LAST, b"R2")], {})
+        hook.run_method(rf, me, [SimpleNamespace(cumulative_tsn=13, streams=[(1, 0), (2, 0)], flags=0)], {})
+        hook.run_method(rd, me, [chunk(14, 1, 3, FIRST | LAST, b"R3")], {})
+        got = [(d[0], bytes(d[2])) for d in me.delivered]
+        n_recv += 1
+        if got == [(1, b"R1"), (1, b"R2"), (1, b"R3")]:
+            rep.ok("C06-RECV", label, sample="the stream's expected sequence number is not moved backwards")
+        else:
+            rep.fail(mk_finding(prog, PROP, "C06-RECV", rf, rf.node, f"[{label}] delivered {got}; expected R1, R2, R3: the entry (1, 0) of the second FORWARD-TSN rewound stream 1 "
+                                "behind messages already delivered, the next message waits for ever", construct="receiver: FORWARD-TSN rewinds a stream"))
+    except Raised as ex:
+        rep.fail(mk_finding(prog, PROP, "C06-RECV", rf, getattr(ex, "node", None), f"[{label}] raises {ex.name}", construct=f"forward-tsn raises {ex.name}"))
+    except Unknown as ex:
+        raise AnalysisError(f"C06-RECV cannot evaluate [{label}]: {ex}")
     # the abandoned message itself was partly received: its fragments must go, the next message on the same channel must come out
     for a_unordered, mask, n_frag in itertools.product((False, True), (1, 2, 3), (1, 2)):
         have = [t for i, t in enumerate((9, 10)) if mask >> i & 1]
